@@ -168,6 +168,10 @@ func c05exec(c *h.Ctx, cs *h.Case) {
 		c05chan(c, cs)
 		return
 	}
+	if len(cs.Ops) > 0 && strings.HasPrefix(cs.Ops[0], "c05 gstart ") {
+		c05agg(c, cs)
+		return
+	}
 	fixMu.Lock() // fix.Prepare is global
 	defer fixMu.Unlock()
 	f := c04get()
@@ -619,6 +623,7 @@ func c05gen(c *h.Ctx, yield func(*h.Case)) {
 	}
 	c05connGen(c, yield)
 	c05chanGen(c, yield)
+	c05aggGen(c, yield)
 	for n := 0; n < c.Pick(30, 300); n++ {
 		feeders := 1 + r.Intn(8)
 		per := 5 + r.Intn(40)
